@@ -8,7 +8,7 @@ import itertools
 import os
 import sys
 
-from .. import model, symx, dtree, constval
+from .. import model, symx, dtree, constval, textmodel as tm
 from ..interp import Machine, Adt, Term, PyVec, PyIter, Panic, explore, ok, err, some, NONE, RESULT
 from ..report import Unsupported
 
@@ -820,6 +820,65 @@ def check_entry_params(chk, F):
     chk.floor(rid, "entry point x context", n, 16)
 
 
+# ---- R12.14 the defect predicates behind the switches ------------------------------------------------------------------------------------
+
+def check_defect_predicates(chk, F, rid="R12.14"):
+    import re
+    from ..interp import Machine, Adt, Term, Panic
+    from ..report import Unsupported
+    from . import c06
+    chk.rule(rid, "the predicates the validation switches test: has_repeated_keys (behind allow_duplicate_keys) holds exactly "
+                  "when some key name occurs twice among the script's pk / pkh / multi keys - adjacent or not, in the same "
+                  "fragment or far apart; contains_raw_pkh (behind allow_raw_pkh) exactly when a raw key-hash fragment occurs; "
+                  "on whole scripts parsed by evaluating the parser")
+    try:
+        hrk = [q for q in F.fns if q.endswith("::has_repeated_keys")][0]
+        crp = [q for q in F.fns if q.endswith("::contains_raw_pkh")][0]
+    except IndexError:
+        chk.fail(rid, "anchor", "has_repeated_keys / contains_raw_pkh not found", kind="unanalysable")
+        return
+    chk.saw(hrk, crp)
+    T_ = c06.Typer(F)
+    m = T_.m
+    H20 = "1212121212121212121212121212121212121212"
+    texts = ["pk(A)", "and_v(v:pk(A),pk(B))", "and_v(v:pk(A),pk(A))", "and_v(v:pkh(A),pk(A))", "thresh(2,pk(A),s:pk(B),s:pk(A))",
+             "thresh(2,pk(A),s:pk(B),s:pk(C))", "andor(pk(A),pk(B),pk(A))", "andor(pk(A),pk(B),pk(C))", "or_d(pk(A),and_v(v:pk(B),pk(A)))",
+             "multi(2,A,B,C)", "multi(2,A,B,A)", "and_v(v:multi(1,A,B),pk(B))", "and_v(v:multi(1,A,B),pk(C))",
+             "or_i(and_v(v:pk(A),pk(B)),and_v(v:pk(C),pk(A)))", "or_i(and_v(v:pk(A),pk(B)),and_v(v:pk(C),pk(D)))",
+             "t:or_c(pk(A),v:pk(A))", "t:or_c(pk(A),v:pk(B))", "and_v(v:pk(A),and_v(v:pk(B),and_v(v:pk(C),pk(A))))",
+             "c:expr_raw_pkh(%s)" % H20, "and_v(vc:expr_raw_pkh(%s),pk(A))" % H20, "or_d(pk(A),and_v(v:pk(B),c:expr_raw_pkh(%s)))" % H20]
+    n = 0
+    for text in texts:
+        for ctx in ("segwitv0",):
+            key = text.replace(H20, "H20")
+            try:
+                tr = tm.parse_tree(F, m, text)
+                ri = m.call_path(T_.root, [tr.fields["0"]])
+                st = "miniscript::private::Miniscript<std::string::String, %s>" % c06.CTX[ctx]
+                r = m.call_callee({"def": "expression::FromTree::from_tree", "resolved": T_.ft, "name": "from_tree",
+                                   "trait": "expression::FromTree",
+                                   "resolved_container": "miniscript::<impl expression::FromTree for miniscript::private::Miniscript<Pk, Ctx>>",
+                                   "self_ty": st, "targs": [st]}, [ri])
+                if not (isinstance(r, Adt) and r.variant == "Ok"):
+                    chk.fail(rid, "unanalysable:" + key, "family text does not parse: %s" % repr(r)[:120], kind="unanalysable")
+                    continue
+                msv = r.fields["0"]
+                names = re.findall(r"(?<![a-z_0-9])([A-D])(?![a-z_0-9(])", text.replace(H20, ""))
+                want_dup = len(names) != len(set(names))
+                want_raw = "expr_raw_pkh" in text
+                got_dup = m.call_callee({"def": hrk, "resolved": hrk, "name": "has_repeated_keys", "targs": ["std::string::String", c06.CTX[ctx]]}, [msv])
+                got_raw = m.call_callee({"def": crp, "resolved": crp, "name": "contains_raw_pkh", "targs": ["std::string::String", c06.CTX[ctx]]}, [msv])
+                n += 1
+                chk.obligation(rid, got_dup is want_dup, "has_repeated_keys|" + key, "has_repeated_keys of %s is %r (keys %r)" % (key, got_dup, names),
+                               F.fns[hrk]["span"])
+                chk.obligation(rid, got_raw is want_raw, "contains_raw_pkh|" + key, "contains_raw_pkh of %s is %r" % (key, got_raw), F.fns[crp]["span"])
+            except Unsupported as e:
+                chk.fail(rid, "unanalysable:" + key, "unanalysable: %s" % e, where=e.where, kind="unanalysable")
+            except Panic as e:
+                chk.fail(rid, key, "panic: %s" % e, F.fns[hrk]["span"])
+    chk.floor(rid, "scripts", n, 20)
+
+
 def run(chk):
     F = chk.facts()
     chk.explanation = (
@@ -855,6 +914,10 @@ def run(chk):
     chk.guard("R12.9", "key-kinds", check_key_kinds, chk, F)
     chk.guard("R12.10", "bare-standardness", check_other_top_level, chk, F)
     chk.guard("R12.12", "entry-params", check_entry_params, chk, F)
+    chk.guard("R12.14", "defect-predicates", check_defect_predicates, chk, F)
+    # nesting depth in range: the taproot tree constructor refuses a leaf deeper than 128 (rule shared with C15)
+    from . import c15
+    chk.guard("R12.15", "taptree-depth", c15.check_combine, chk, F, "R12.15")
     # validate_non_top_level applies the per-node switches while walking the tree with Miniscript::iter / iter_pk
     # (get_nth_child): a child the walk skips is a fragment no switch looks at (rules shared with C20)
     from . import c20
